@@ -294,6 +294,23 @@ def run(ctx):
         ops = [("run",)] + [("add", c) for c in order] + [("run",)]
         sc = Scenario(cmds, ops=ops, wd=tmp, libs=LIBS)
         ext.append((sc, err))
+    # commands refused by add_command itself (undeclared parameter, missing parameter, a result name already taken): the program is what it was before -
+    # the refused command is not part of it, the corrected one can be added under the same name, and run() executes exactly the accepted commands
+    ext_add = []
+    for _ in range(ctx.budget(12, 300)):
+        cmds = producers(env) + [("T0", "N", [("One", Name("Tok"))])]
+        bad, err = rng.choice([
+            (("New", "N", [("One", "Tok"), ("Bogus", 1)]), "NoSuchParameter"),
+            (("New", "S", []), "MissingParameters"),
+            (("New", "S", [("Bogus", 2), ("Req", 1)]), "NoSuchParameter"),
+            (("T0", "N", []), "DuplicateResult"),
+            (("New", "NoSuchCommand", []), "CommandDoesNotExist"),
+        ])
+        good = ("New", rng.choice(["N", "W"]), [])
+        pre = [("run",)] if rng.random() < 0.5 else []
+        ops = pre + [("add", bad), ("add", good), ("run",), ("result", "New")]
+        sc = Scenario(cmds, ops=ops, wd=tmp, libs=LIBS)
+        ext_add.append((sc, err, len(pre)))
     # producer / consumer pairings
     prods = {"Rd": "data", "Fz": "fuzzy", "Tok": "token", "Wr": "bool"}
     for pname in prods:
@@ -308,7 +325,20 @@ def run(ctx):
             scs.append((sc, "pairing", "pairing:%s->%s.%s" % (prods[pname], cname, arg)))
     lines = [sc.protocol(classes) for sc, _, _ in scs]
     answers = model.ask(lines)
+    from mpilot.program import Program as _Program
+    BROKEN = ['A = B(', 'READ(InFileName = "in.csv", InFieldName = a)\nCVTTOFUZZY(InFieldName = a,\n\n\n  NewFieldName = ]\n', 'A = N()\n\n\nB = N(One = "x\\x4")\n',
+              'A = N(\n One = [1, k: 2]\n)\n', '\n\n\n\n)', 'A = N()\nB = N(Many = [A,\n\n']
     for (sc, expect, tag), ans in zip(scs, answers):
+        if rng.random() < 0.3:
+            # a malformed text was handed to the loader just before (rejected with a syntax error after some of it had been read): what is accepted next,
+            # and the line an error names, depends on the model alone
+            try:
+                _Program.from_source(rng.choice(BROKEN), libraries=LIBS, working_dir=tmp)
+                ctx.fail("a malformed text was accepted", {"source": "one of " + repr(BROKEN)})
+            except SyntaxError:
+                ctx.count("loads_after_a_syntax_error")
+            except Exception as e_:
+                ctx.fail("a malformed text was rejected with %s" % type(e_).__name__, {"source": "one of " + repr(BROKEN)})
         before_tree = tree(tmp)
         res = progrun.run_impl(sc)
         if expect is not None and expect != "pairing" and tree(tmp) != before_tree:
@@ -351,6 +381,40 @@ def run(ctx):
         elif "Eff" in res["effects"] or "+Eff" in res["log"] or "+Bad" in res["log"]:
             ctx.fail("a faulty command added through add_command after a successful run is rejected (%s) only after executing %r" % (
                 err, [e for e in res["log"] if e[1:] in ("Eff", "Bad")]), sc.describe())
+    for (sc, err, k0), ans in zip(ext_add, model.ask([sc.protocol(classes) for sc, _, _ in ext_add])):
+        if sc.ops[k0][1][1] == "NoSuchCommand":
+            continue        # find_command_class raises before add_command is reached: nothing to compare
+        res = progrun.run_impl(sc)
+        ctx.case(sc.source + repr(sc.ops), sample={"kind": "refused-addition", "ops": repr(sc.ops)[:300], "impl": progrun.impl_text(res)[:200], "model": ans[:200]})
+        ctx.count("kind:refused-addition")
+        d = progrun.compare(res, ans)
+        if d:
+            ctx.disagree("load+prepass:refused-addition", sc.describe(), d[0][:400], d[1][:400])
+        if res["load"] != "ok" or not res["ops"][k0].startswith("mp:%s:" % err):
+            ctx.fail("add_command with a faulty command gave %s, expected %s" % (res["ops"][k0:k0 + 1], err), sc.describe())
+        elif res["ops"][k0 + 1:] != ["ok", "ok", "ok"]:
+            ctx.fail("after add_command refused a command (%s), adding the corrected command under the same name, run() and reading its result gave %r: "
+                     "the refused command left something behind" % (err, res["ops"][k0 + 1:]), sc.describe())
+        elif res["program"] is not None and sorted(res["program"].commands) != sorted([c[0] for c in sc.commands] + ["New"]):
+            ctx.fail("after a refused and a corrected addition the program holds %r" % sorted(res["program"].commands), sc.describe())
+    # a file that existed when an earlier model was validated and run, and is gone when the next model that names it is run: rejected before anything executes
+    for k in range(ctx.budget(3, 20)):
+        fn = "vanishing_%d.csv" % k
+        cmds = [("Eff", "W", []), ("P", "S", [("Req", 1), ("PathIn", fn)])]
+        rng.shuffle(cmds)
+        sc = Scenario(cmds, wd=tmp, libs=LIBS)
+        open(os.path.join(tmp, fn), "w").write("a\n1\n")
+        first = progrun.run_impl(sc)
+        os.remove(os.path.join(tmp, fn))
+        second = progrun.run_impl(Scenario(cmds, ops=[("run",), ("run",)], wd=tmp, libs=LIBS))
+        ctx.case("vanishing " + sc.source, sample=None)
+        ctx.count("kind:vanishing-file")
+        if first["load"] != "ok" or first["ops"] != ["ok"]:
+            ctx.fail("a model naming an existing file is rejected: %s %s" % (first["load"], first["ops"]), sc.describe())
+        elif second["load"] != "ok" or not all(o.startswith("mp:PathDoesNotExist:") for o in second["ops"]):
+            ctx.fail("a model naming a file that no longer exists (it did when an earlier model ran) gave %s %s, expected PathDoesNotExist" % (second["load"], second["ops"]), sc.describe())
+        elif second["log"] or second["effects"]:
+            ctx.fail("a model naming a file that no longer exists is rejected only after executing %r" % second["log"], sc.describe())
     eems2_faults(ctx, model, tmp, env, classes)
     return ctx.finish(
         rule="scenarios = producers (EEMSRead, CvtToFuzzy, opaque) + one call of each of the %d command classes with valid arguments, then the same "
